@@ -607,7 +607,7 @@ def r_bad(doc, op):
   if which == 6: return ['RemoveColumn', tid, 'no_such_col']
   if which == 7: return ['RenameTable', tid, '_grist_Tables']
   if which == 8: return ['RemoveRecord', tid, 424242]
-  if which == 9: return ['BulkAddRecord', tid, [None, None], {c['colId']: [1] for c in cols[:1]}]
+  if which == 9: return ['BulkAddRecord', tid, [None, None], {'no_such_col': [1, 2]}]
   if which == 10 and cols: return ['RenameColumn', tid, cols[0]['colId'], 'id']
   if which == 11: return ['RemoveTable', 'NoSuchTable']
   return ['UpdateRecord', tid, -5, {}]
